@@ -153,7 +153,11 @@ def r2_load_config(chk, fx):
     chk.analysed(b.name)
     fn = short_fn(b.name)
     loops = b.for_loops()
-    chk.floor("C04/R2 for-loops in load_config", len(loops), 2)
+    r2_no_pending_reply(chk, fx, b, fn)
+    if len(loops) < 2:
+        # not the collect-then-await idiom: the general rule above decides; the idiom-specific instances below do not apply
+        chk.note("load_config does not use the push-all-then-await-all idiom; decided by the pending-reply rule alone")
+        return
     rpcs = [c for c in b.calls() if c.is_fn("Session::<T>::rpc") and not c.macro]
     chk.floor("C04/R2 rpc::<LoadConfiguration> sites", len(rpcs), 1)
     pushes = [c for c in b.calls() if c.is_fn("Vec::<T, A>::push") and not c.macro]
@@ -218,6 +222,84 @@ def r2_load_config(chk, fx):
                          loc_of(s.get("sp")), holds=okd, key="C04/R2 %s Ok-before-all-replies" % fn)
     if not b.ok_aggs():
         raise F.AnchorLost("no Ok(..) in load_config")
+
+
+def r2_no_pending_reply(chk, fx, b, fn):
+    """Idiom-independent form of C04/R2: when load_config returns Ok, no reply future of a sent <load-configuration> may still be
+    un-awaited.  A future is consumed by `.await` (moved into into_future) or by being moved into a container; a container is
+    consumed by being iterated to exhaustion.  So: at every Ok(..) construction, no local that (a) derives from an rpc() result,
+    (b) is a value holder (not a borrow / Pin / Poll temporary) and (c) may still be initialised is allowed — except an iterator
+    whose `next()` returned None on every path to that point.  And every await of such a future is `?`-checked."""
+    rpcs = [c for c in b.calls() if c.is_fn("Session::<T>::rpc") and not c.macro]
+    chk.floor("C04/R2 rpc::<LoadConfiguration> sites", len(rpcs), 1)
+    init_in, init_out = b.maybe_init(option_aware=True)
+
+    def mut_receivers(c):
+        # container-style calls store a tainted argument into their &mut receiver
+        return c.is_fn("Vec::<T, A>::push", "Option::<T>::replace", "Option::<T>::insert", "Option::<T>::get_or_insert", "VecDeque::<T, A>::push_back",
+                       "VecDeque::<T, A>::push_front", "Vec::<T, A>::insert", "Vec::<T, A>::extend", "Extend::extend", "FuturesUnordered::<Fut>::push",
+                       "FuturesOrdered::<T>::push_back", "JoinSet::<T>::spawn")
+
+    seeds = {r.dest["l"] for r in rpcs}
+    t = set(b.forward_taint(seeds))
+    # stores through &mut receivers: taint what the reference points to
+    changed = True
+    while changed:
+        changed = False
+        for c in b.calls():
+            if c.macro or not mut_receivers(c) or len(c.args) < 2:
+                continue
+            if any(F.op_base(a) in t for a in c.args[1:]):
+                org, vis = b.backward_slice(F.op_base(c.args[0]), through_call=lambda x: x.is_fn("DerefMut::deref_mut", "Deref::deref"))
+                new = {v for v in vis if v not in t}
+                if new:
+                    t |= new
+                    t = set(b.forward_taint(t))
+                    changed = True
+
+    def holder(l):
+        ty = b.local_ty(l)
+        if ty.startswith(("&", "std::pin::Pin<&", "std::task::Poll<", "*", "std::task::Context", "bool", "()", "isize", "usize")):
+            return False
+        return "Future" in ty or "IntoIter<" in ty
+    holders = {l for l in t if holder(l)}
+    nexts = {}
+    for lp in b.for_loops():
+        nexts.setdefault(F.op_base(lp["next"].args[0]), []).append(lp)
+    oks = b.ok_aggs()
+    if not oks:
+        raise F.AnchorLost("no Ok(..) in load_config")
+    for (bi, si, st) in oks:
+        left = []
+        for l in sorted(holders & init_in[bi]):
+            ty = b.local_ty(l)
+            if "IntoIter<" in ty:
+                # exhausted on every path here?
+                lps = []
+                for lp in b.for_loops():
+                    recv = b.backward_slice(F.op_base(lp["next"].args[0]), through_call=lambda x: False)[1]
+                    if l in recv:
+                        lps.append(lp)
+                if lps and all(b.edge_dominates(lp["switch"], lp["none"], bi) for lp in lps):
+                    continue
+            left.append((b.locals[l].get("name") or "_%d" % l, T.short(ty.split("<")[0], 1)))
+        chk.instance("C04/R2", "no reply future of a sent load is left un-awaited when load_config returns Ok (still held: %s)" % (left or "none"), b.name,
+                     loc_of(st.get("sp")), holds=not left, key="C04/R2 %s reply-future-pending-at-Ok" % fn,
+                     detail=None if not left else "the reply to a load that was sent is never looked at: a rejected load does not prevent the commit")
+    # every await of a reply future is `?`-checked
+    tries = b.try_branches()
+    n_aw = 0
+    for ap in b.await_points():
+        p = ap["poll"]
+        if p is None or F.op_base(p.args[0]) not in t:
+            continue
+        # the send-await (outer future) and the reply-await (inner) both count
+        n_aw += 1
+        res = b.forward_taint([p.dest["l"]])
+        checked = [c for (c, cont, brk) in tries if F.op_base(c.args[0]) in res]
+        chk.instance("C04/R2", "result of awaiting a load's %s is `?`-checked" % ("send" if ap["src"] is not None and ap["src"].is_fn("Session::<T>::rpc") else "reply"),
+                     b.name, loc_of(ap["sp"]), holds=bool(checked), key="C04/R2 %s awaited-result-unchecked" % fn)
+    chk.floor("C04/R2 awaits of load futures", n_aw, 2)
 
 
 # ---------------------------------------------------------------------------------------------
